@@ -156,6 +156,7 @@ func c32run(l LockedMap[int, int], o c32op) string {
 		return fmt.Sprint(l.RemoveValue(o.key))
 	case "Set":
 		v, created, err := l.Set(o.key, func(v int, found bool) (int, error) {
+			vsched.Point("callback", nil) // a callback is the caller's code: another thread may be scheduled while it runs
 			if found {
 				return v + 10, nil
 			}
@@ -168,6 +169,7 @@ func c32run(l LockedMap[int, int], o c32op) string {
 	case "GetOrCreate":
 		var got string
 		err := l.GetOrCreate(o.key, func(v int, created bool) error {
+			vsched.Point("callback", nil)
 			got = fmt.Sprintf("%d,%v", v, created)
 			return nil
 		}, func() (int, error) { return o.val, nil })
@@ -177,6 +179,7 @@ func c32run(l LockedMap[int, int], o c32op) string {
 		return got
 	case "SetOrRemove":
 		_, created, removed, err := l.SetOrRemove(o.key, func(v int, found bool) (int, bool, error) {
+			vsched.Point("callback", nil)
 			if found {
 				return 0, true, nil
 			}
@@ -192,7 +195,7 @@ func c32run(l LockedMap[int, int], o c32op) string {
 		}
 		return "?"
 	case "Remove":
-		removed, err := l.Remove(o.key, func(int, bool) error { return nil })
+		removed, err := l.Remove(o.key, func(int, bool) error { vsched.Point("callback", nil); return nil })
 		if err != nil {
 			return "false" // closed: nothing removed
 		}
@@ -526,7 +529,7 @@ func TestVerifC32(t *testing.T) {
 		{"Traverse", 0, 0}, {"Len", 0, 0}, {"Map", 0, 0}, {"Empty", 0, 0}, {"Close", 0, 0},
 	}
 	quickA := []c32op{
-		{"SetValue", 0, 1}, {"SetValue", 1, 3}, {"Value", 0, 0}, {"RemoveValue", 0, 0},
+		{"SetValue", 0, 1}, {"SetValue", 1, 3}, {"Value", 0, 0}, {"Remove", 0, 0}, // Remove (callback with a scheduling point) rather than RemoveValue: thorough has both
 		{"Set", 0, 0}, {"SetOrRemove", 0, 0}, {"Traverse", 0, 0}, {"Len", 0, 0}, {"Map", 0, 0}, {"Empty", 0, 0}, {"Close", 0, 0},
 	}
 	alpha := vlib.Pick(r, quickA, full)
